@@ -654,3 +654,13 @@ proof fn lemma_merge_sizes(w0: &World, w1: &World, w3: &World, w: &World, kd0: M
         }
     }
 }
+
+/// C14: facts about ids the copy loop maintains (exported from the opaque loop state)
+proof fn lemma_merge_top(kd0: Map<Bytes, KeyDirEntry>, st0: Map<u64, LogStatistics>, w0: &World, sel: Set<u64>, act: u64, keys: Seq<Bytes>, exact: bool,
+                         kd: Map<Bytes, KeyDirEntry>, st: Map<u64, LogStatistics>, w: &World, i: int, hi: u64)
+    requires merge_state(kd0, st0, w0, sel, act, keys, exact, kd, st, w, i, hi)
+    ensures w.data.contains_key(hi), act < hi, forall |g: u64| w.ever.contains(g) ==> g <= hi, forall |g: u64| sel.contains(g) ==> g <= act,
+{
+    reveal(merge_state);
+    assert(out_ok(kd, w, hi));
+}
